@@ -35,6 +35,18 @@ func dangerousURL(attrValue string) bool {
 	return false
 }
 
+// what follows the scheme: shapes on which URL parsers of different strictness disagree
+// (authority with percent-escapes, non-numeric port, bad IPv6 literal, blanks, bare percent)
+var c04Payloads = []string{"alert(1)", "//%0Aalert(1)", "//x:alert(1)", "//%2Fetc/passwd", "//[::1", "//a b/c", "//u:p@h:x/", "%", "%zz", "//%", "?q#f", "#f", "/", "//", "///etc/passwd", "\\\\x", "//h\tx", "//%00", "text/html,<script>a</script>", "//x:y/,<script>", "image/png;base64,xx", "image/svg+xml;x", ",x", ""}
+
+func init() {
+	for _, sc := range []string{"javascript", "JaVaScRiPt", "vbscript", "VBScript", "file", "FILE", "data", "DATA", "http", "mailto", "javascripts", "xjavascript", "java script"} {
+		for _, p := range c04Payloads {
+			c04Schemes = append(c04Schemes, sc+":"+p)
+		}
+	}
+}
+
 var c04Schemes = []string{"javascript:alert(1)", "JaVaScRiPt:alert(1)", "vbscript:x", "VBScript:x", "file:///etc/passwd", "FILE:/x", "data:text/html,<script>", "data:image/png;base64,xx", "DATA:image/svg+xml;x", "data:image/bmp;x", "data:,x", "http://ok/", "/rel", "#frag", "mailto:a@b.c"}
 
 // every way of spelling a byte of the scheme
